@@ -278,18 +278,30 @@ mod verif_in_context {
 
     // ------------------------------------------------------------------ L3: one actor step
 
-    pub(crate) struct VecTx {
-        pub(crate) out: [u8; 16],
-        pub(crate) n: usize,
+    /// Writer mock recording into statics (TxPacketStream's inner stream is private to its module).
+    static OUT: [core::sync::atomic::AtomicU8; 16] = [const { core::sync::atomic::AtomicU8::new(0) }; 16];
+    static OUT_N: core::sync::atomic::AtomicUsize = core::sync::atomic::AtomicUsize::new(0);
+    fn out_n() -> usize {
+        OUT_N.load(Ordering::Relaxed)
+    }
+    fn out(i: usize) -> u8 {
+        OUT[i].load(Ordering::Relaxed)
+    }
+    pub(crate) struct VecTx;
+    impl VecTx {
+        fn new() -> VecTx {
+            OUT_N.store(0, Ordering::Relaxed);
+            VecTx
+        }
     }
     impl AsyncWrite for VecTx {
-        fn poll_write(mut self: core::pin::Pin<&mut Self>, _cx: &mut core::task::Context<'_>, buf: &[u8]) -> core::task::Poll<std::io::Result<usize>> {
+        fn poll_write(self: core::pin::Pin<&mut Self>, _cx: &mut core::task::Context<'_>, buf: &[u8]) -> core::task::Poll<std::io::Result<usize>> {
             let mut i = 0;
             while i < buf.len() {
-                let k = self.n;
+                let k = OUT_N.load(Ordering::Relaxed);
                 assert!(k < 16, "verif bound: mock writer capacity");
-                self.out[k] = buf[i];
-                self.n += 1;
+                OUT[k].store(buf[i], Ordering::Relaxed);
+                OUT_N.store(k + 1, Ordering::Relaxed);
                 i += 1;
             }
             core::task::Poll::Ready(Ok(buf.len()))
@@ -314,7 +326,7 @@ mod verif_in_context {
     #[kani::unwind(4)]
     pub(crate) fn probe_step_puback() {
         let mut cx = task_cx();
-        let mut tx = TxPacketStream::from(VecTx { out: [0; 16], n: 0 });
+        let mut tx = TxPacketStream::from(VecTx::new());
         let r: u16 = kani::any();
         let q: u16 = kani::any();
         kani::assume(r >= 1 && q <= r);
@@ -343,6 +355,80 @@ mod verif_in_context {
         kani::cover!(q == r, "quota already full");
         core::mem::forget(session);
         core::mem::forget(got);
+        core::mem::forget(rcv);
+    }
+
+    //@ h name=step_retransmit props=C17 tier=off cap=small to=2400 mem=30
+    //@ claim: retransmit() writes the stored packets of the retransmit queue in their original order, each exactly once and unchanged, clears the recorded disconnection, and leaves the queue as it was
+    //@ bounds: queue of two entries of 2 and 3 arbitrary bytes; a writer that accepts everything at once
+    //@ funcs: Context::retransmit, TxPacketStream::write
+    #[kani::proof]
+    #[kani::unwind(8)]
+    pub(crate) fn step_retransmit() {
+        let mut cx = task_cx();
+        let mut tx = TxPacketStream::from(VecTx::new());
+        let mut connection = any_connection();
+        connection.disconnection_timestamp = Some(std::time::UNIX_EPOCH);
+        let mut session = Session { awaiting_ack: VecDeque::new(), subscriptions: VecDeque::new(), retrasmit_queue: VecDeque::new() };
+        let a: &'static [u8; 2] = Box::leak(Box::new(kani::any()));
+        let b: &'static [u8; 3] = Box::leak(Box::new(kani::any()));
+        session.retrasmit_queue.push_back((1, Bytes::from_static(&a[..])));
+        session.retrasmit_queue.push_back((2, Bytes::from_static(&b[..])));
+        {
+            let mut f = core::pin::pin!(CtxV::retransmit(&mut tx, &mut connection, &mut session));
+            match core::future::Future::poll(f.as_mut(), &mut cx) {
+                core::task::Poll::Ready(Ok(())) => {}
+                _ => panic!("retransmit completes when the writer accepts everything"),
+            }
+        }
+        assert!(connection.disconnection_timestamp.is_none(), "the recorded disconnection is cleared");
+        assert!(out_n() == 5, "every stored packet is written exactly once");
+        assert!(out(0) == a[0] && out(1) == a[1], "first entry first, unchanged");
+        assert!(out(2) == b[0] && out(3) == b[1] && out(4) == b[2], "second entry second, unchanged");
+        assert!(session.retrasmit_queue.len() == 2, "the queue is kept for later acknowledgements");
+        kani::cover!(a[0] == 0x3a && b[0] == 0x62, "a PUBLISH with DUP=1 then a PUBREL");
+        kani::cover!(out_n() == 5, "five bytes on the wire");
+        core::mem::forget(session);
+    }
+
+    //@ h name=step_msg_publish props=C06,C10,C12,C17 tier=off cap=small to=3000 mem=40
+    //@ claim: experiment: one handle_message(AwaitAck PUBLISH) step
+    #[kani::proof]
+    #[kani::unwind(8)]
+    pub(crate) fn step_msg_publish() {
+        let mut cx = task_cx();
+        let mut tx = TxPacketStream::from(VecTx::new());
+        let r: u16 = kani::any();
+        let q: u16 = kani::any();
+        kani::assume(r >= 1 && q <= r);
+        let mut connection = Connection { disconnection_timestamp: None, session_expiry_interval: 0, remote_receive_maximum: r, remote_max_packet_size: None, send_quota: q };
+        let mut session = Session { awaiting_ack: VecDeque::new(), subscriptions: VecDeque::new(), retrasmit_queue: VecDeque::new() };
+        let mut packet = BytesMut::new();
+        let retain: bool = kani::any();
+        packet.extend_from_slice(&[0x32 | retain as u8, 5, 0, 1, b't', 0, 7, 0]);
+        let (s, mut rcv) = oneshot::channel();
+        let aid = (4usize << 24) | (7usize << 8);
+        let msg = ContextMessage::AwaitAck(AwaitAck { action_id: aid, packet, response_channel: s });
+        {
+            let mut f = core::pin::pin!(CtxV::handle_message(&mut tx, &mut connection, &mut session, msg));
+            match core::future::Future::poll(f.as_mut(), &mut cx) {
+                core::task::Poll::Ready(Ok(())) => {}
+                _ => panic!("step completes"),
+            }
+        }
+        if q == 0 {
+            assert!(out_n() == 0 && connection.send_quota == 0, "quota exhausted: nothing written");
+            assert!(session.awaiting_ack.is_empty() && session.retrasmit_queue.is_empty(), "nothing left behind");
+            assert!(matches!(rcv.try_recv(), Ok(Some(Err(MqttError::QuotaExceeded(_))))), "QuotaExceeded reported");
+        } else {
+            assert!(connection.send_quota == q - 1, "one slot taken");
+            assert!(out_n() == 8 && out(0) == 0x32 | retain as u8, "the PUBLISH is written unchanged (DUP=0)");
+            assert!(session.awaiting_ack.len() == 1 && session.retrasmit_queue.len() == 1, "waiter and retransmit entry registered");
+            assert!(session.retrasmit_queue[0].1[0] == 0x3a | retain as u8, "the stored copy has DUP=1");
+        }
+        kani::cover!(q == 0, "quota exhausted");
+        kani::cover!(q == r, "full quota");
+        core::mem::forget(session);
         core::mem::forget(rcv);
     }
 }
